@@ -294,10 +294,11 @@ class CompositeFrontend(ConstrainedFrontend):
         for names, set_constraints in split:
             if names == {"CONCRETE"}:
                 try:
-                    if any(backends.concrete.convert(c) is False for c in set_constraints):
+                    falses = [c for c in set_constraints if backends.concrete.convert(c) is False]
+                    if falses:
                         self._unsat = True
-                        # keep it in the constraint list as well, so that combine(), merge() and friends see it
-                        child_added.append(false())
+                        # keep them in the constraint list as well, so that combine(), merge() and friends see them
+                        child_added.extend(falses)
                 except BackendError:
                     unsure.extend(set_constraints)
             else:
@@ -416,7 +417,7 @@ class CompositeFrontend(ConstrainedFrontend):
 
         if self._unsat:
             # a concretely false constraint was added; it lives in no child
-            return [false()]
+            return [c for c in self.constraints if not c.variables and c.is_false()] or [false()]
 
         cores = []
 
